@@ -5,6 +5,7 @@
      IdGenerator.generate_id                      -> next_id / next_num are returned, then incremented (assign, create_view)
      Cas.__init__                                 -> init_empty (sofa of _InitialView takes id 1 and sofaNum 1)
      Cas.create_view / _add_view (no explicit id) -> create_view (ValueError when the name exists)
+     Cas.create_view(name, xmiID=, sofaNum=)      -> create_view_at (given values used and reserved, each in its own generator)
      IdGenerator.reserve_id                       -> reserve (next := max next (k+1))
      Cas.add(fs, keep_id)                         -> add (a present id is kept and reserved in the generator)
      Cas.add_all                                  -> fold of add with keep_id=True
@@ -63,7 +64,8 @@ Inductive op :=
 | OpCreateView (name : string)              (* cas.create_view(name) *)
 | OpSave (order : list label)               (* cas.to_xmi() / cas.to_json() *)
 | OpReload (order : list label)             (* load_cas_from_xxx(cas.to_xxx()) *)
-| OpForceId (l : label) (k : Z).            (* fs.xmiID = k *)
+| OpForceId (l : label) (k : Z)             (* fs.xmiID = k *)
+| OpCreateViewAt (name : string) (xid num : option Z).   (* cas.create_view(name, xmiID=xid, sofaNum=num) *)
 Definition OpAddFresh (l : label) : op := OpAdd l false.
 
 Inductive obs :=
@@ -105,6 +107,16 @@ Definition link (p c : label) (s : st) : st :=
 Definition create_view (name : string) (s : st) : st * obs :=
   if existsb (fun x => String.eqb (s_name x) name) (sofas s) then (s, OErr EValue)
   else (mkSt (next_id s + 1) (next_num s + 1) (sofas s ++ [mkSofa (next_id s) (next_num s) name]) (fss s), ONone).
+
+(* Cas.create_view(name, xmiID=xid, sofaNum=num) / _add_view: a value given by the caller is used as it is and reserved in
+   the generator of its own kind (xmiID in the xmi:id generator, sofaNum in the sofaNum generator); a value that is not
+   given is generated.  Nothing checks that a given value is unused. *)
+Definition pick (o : option Z) (next : Z) : Z := match o with Some k => k | None => next end.
+Definition bump (o : option Z) (next : Z) : Z := match o with Some k => reserve k next | None => next + 1 end.
+Definition create_view_at (name : string) (xid num : option Z) (s : st) : st * obs :=
+  if existsb (fun x => String.eqb (s_name x) name) (sofas s) then (s, OErr EValue)
+  else (mkSt (bump xid (next_id s)) (bump num (next_num s))
+             (sofas s ++ [mkSofa (pick xid (next_id s)) (pick num (next_num s)) name]) (fss s), ONone).
 
 Definition force (l : label) (k : Z) (s : st) : st :=
   match fget l (fss s) with
@@ -233,6 +245,7 @@ Definition step (s : st) (o : op) : st * obs :=
     | (s1, OutOfFuel) => (s1, OErr ERuntime)
     end
   | OpForceId l k => (force l k s, ONone)
+  | OpCreateViewAt name xid num => create_view_at name xid num s
   end.
 
 Definition run (s : st) (h : list op) : st := fold_left (fun s' o => fst (step s' o)) h s.
@@ -281,10 +294,24 @@ Definition outside_id_clearb (s : st) (l : label) : bool :=
   end.
 Definition forced_clearb (s : st) : bool := forallb (outside_id_clearb s) (reachable s).
 
-(* premise on histories: whenever the CAS is serialised, forced_clearb holds *)
+(* premise on create_view(name, xmiID=, sofaNum=): the values chosen by the caller are not those of an existing sofa
+   (the code does not check this).  Histories without OpCreateViewAt satisfy it trivially. *)
+Definition optmem (o : option Z) (l : list Z) : bool := match o with Some k => memz k l | None => false end.
+Definition view_okb (s : st) (o : op) : bool :=
+  match o with
+  | OpCreateViewAt _ xid num => negb (optmem xid (sids s)) && negb (optmem num (snums s))
+  | _ => true
+  end.
+Fixpoint views_okb (s : st) (h : list op) : bool :=
+  match h with [] => true | o :: r => view_okb s o && views_okb (fst (step s o)) r end.
+Definition plain_op (o : op) : bool := match o with OpCreateViewAt _ _ _ => false | _ => true end.
+
+(* premise on histories: whenever the CAS is serialised, forced_clearb holds; an id chosen by the caller of create_view
+   is neither the id of a sofa nor a generated / loaded FS id, a chosen sofaNum is not that of a sofa *)
 Definition op_okb (s : st) (o : op) : bool :=
   match o with
   | OpSave _ | OpReload _ => forced_clearb s
+  | OpCreateViewAt _ xid _ => view_okb s o && negb (optmem xid (tracked s))
   | _ => true
   end.
 Fixpoint hist_okb (s : st) (h : list op) : bool :=
